@@ -536,6 +536,18 @@ func c07Blame(n *c07Node) string {
 	}
 	sort.Strings(ks)
 	if len(ks) > 4 {
+		// a program the shrinker could not reduce names many built-ins: keep the ones fq redefines (they are what
+		// the property is about and what listed findings are keyed on — a fromjson finding was reported under a
+		// signature that had lost "fromjson/0" to the cut, thorough tier) in front of the cut
+		pri := func(k string) bool {
+			for _, p := range []string{"fromjson", "tojson", "split", "test/", "match/", "capture/", "scan/", "sub/", "gsub/", "explode", "implode", "tostring", "ascii", "getpath", "paths", "to_entries", "from_entries", "with_entries", "group_by", "unique_by", "debug", "stderr", "input_filename", "ltrimstr", "rtrimstr", "@json", "@text"} {
+				if strings.HasPrefix(k, p) {
+					return true
+				}
+			}
+			return false
+		}
+		sort.SliceStable(ks, func(i, j int) bool { return pri(ks[i]) && !pri(ks[j]) })
 		ks = append(ks[:4], "more")
 	}
 	return strings.Join(ks, "+")
@@ -843,9 +855,11 @@ var c07ExcludedRes = func() map[string][2]*regexp.Regexp {
 	return m
 }()
 
+var c07EnvVarRe = regexp.MustCompile(`\$ENV($|[^A-Za-z0-9_])`) // ($ENV2 is a user variable)
+
 // c07UsesExcludedBuiltin: the program text calls one of the excluded built-ins without defining a function of that name
 func c07UsesExcludedBuiltin(prog string) bool {
-	if strings.Contains(prog, "$ENV") || strings.Contains(prog, "$__loc__") {
+	if c07EnvVarRe.MatchString(prog) || strings.Contains(prog, "$__loc__") {
 		return true
 	}
 	for _, res := range c07ExcludedRes {
